@@ -193,3 +193,94 @@ def confirm_c16():
     if r1[1] is None or r2[1] is None or r1[1] != r2[1]:
         bad.append("-t 500 -r 1000 does not print what -t 1 prints (the regret threshold is not what stops the solve)")
     return bool(bad), {"runs": runs, "violations": len(bad), "examples": bad[:5]}
+
+
+def confirm_c17():
+    """corrupted game files under every input route: non-zero exit, a documented diagnostic on stderr, no result object"""
+    exe, err = build()
+    if exe is None:
+        return None, {"error": "cfr binary does not build", "log": err}
+    d = os.path.join(DIR, "c17")
+    os.makedirs(d, exist_ok=True)
+    T = {"terminal": 1.0}
+
+    def pl(one, info, acts):
+        return {"player": {"player_one": one, "infoset": info, "actions": acts}}
+
+    def ch(outs, info=None):
+        c = {"outcomes": {k: {"prob": p, "state": s} for k, (p, s) in outs.items()}}
+        if info is not None:
+            c["infoset"] = info
+        return {"chance": c}
+    valid_json = pl(True, "a", {"l": ch({"x": (1.0, T), "y": (3.0, {"terminal": -1.0})}), "r": pl(False, "b", {"u": T, "d": {"terminal": 2.0}})})
+    bad_json = {
+        "truncated": '{"player": {"player_one": true, "infoset": "a", "actions": {',
+        "missing-field": json.dumps({"player": {"player_one": True, "actions": {"l": T, "r": T}}}),
+        "wrong-type": json.dumps({"player": {"player_one": "yes", "infoset": "a", "actions": {"l": T, "r": T}}}),
+        "renamed-field": json.dumps({"player": {"player_one": True, "infoset": "a", "moves": {"l": T, "r": T}}}),
+        "payoff-string": json.dumps({"terminal": "1.0"}),
+        "zero-probability": json.dumps(pl(True, "a", {"l": ch({"x": (0.0, T), "y": (1.0, T)}), "r": T})),
+        "negative-probability": json.dumps(pl(True, "a", {"l": ch({"x": (-1.0, T), "y": (1.0, T)}), "r": T})),
+        "empty-chance": json.dumps(pl(True, "a", {"l": {"chance": {"outcomes": {}}}, "r": T})),
+        "empty-player": json.dumps(pl(True, "a", {})),
+        "actions-differ": json.dumps(pl(False, "r", {"l": pl(True, "a", {"x": T, "y": T}), "r": pl(True, "a", {"x": T, "z": T})})),
+        "imperfect-recall": json.dumps(pl(True, "t", {"l": pl(True, "s", {"x": T, "y": T}), "r": pl(False, "q", {"m": pl(True, "s", {"x": T, "y": T}), "n": T})})),
+        "forgot-own-action": json.dumps(pl(True, "t", {"l": pl(True, "s", {"x": T, "y": T}), "r": pl(True, "s", {"x": T, "y": T})})),
+        "chance-probabilities-differ": json.dumps(pl(True, "t", {"l": ch({"x": (1.0, T), "y": (1.0, T)}, "c"), "r": ch({"x": (1.0, T), "y": (2.0, T)}, "c")})),
+        "huge-payoff": '{"terminal": 1e999}',
+    }
+    efg_head = 'EFG 2 R "g" { "P1" "P2" }\n""\n'
+    valid_efg = efg_head + 'p "" 1 1 "a" { "l" "r" } 0\nt "" 1 "" { 1, -1 }\nt "" 2 "" { -2, 2 }\n'
+    bad_efg = {
+        "truncated": 'EFG 2 R "g" { "P1" "P2"',
+        "three-players": 'EFG 2 R "g" { "P1" "P2" "P3" }\n""\np "" 1 1 "a" { "l" "r" } 0\nt "" 1 "" { 1, -1, 0 }\nt "" 2 "" { -2, 2, 0 }\n',
+        "one-player": 'EFG 2 R "g" { "P1" }\n""\np "" 1 1 "a" { "l" "r" } 0\nt "" 1 "" { 1 }\nt "" 2 "" { 2 }\n',
+        "not-constant-sum": efg_head + 'p "" 1 1 "a" { "l" "r" } 0\nt "" 1 "" { 1, -1 }\nt "" 2 "" { -2, 5 }\n',
+        "zero-probability": efg_head + 'c "" 1 "c" { "x" 0 "y" 1 } 0\nt "" 1 "" { 1, -1 }\nt "" 2 "" { -2, 2 }\n',
+        "actions-differ": efg_head + 'p "" 2 1 "r" { "l" "r" } 0\np "" 1 1 "a" { "x" "y" } 0\nt "" 1 "" { 1, -1 }\nt "" 2 "" { 2, -2 }\np "" 1 1 "a" { "x" "z" } 0\nt "" 3 "" { 1, -1 }\nt "" 4 "" { 2, -2 }\n',
+        "garbage": "this is not a game file\n",
+    }
+    anchors = ("#json-error", "#gambit-error", "#auto-error", "#game-error", "#constant-sum", "#duplicate-infosets", "only supports two player", "non-finite payoffs")
+    bad, runs = [], 0
+
+    def attempt(label, path, text, extra):
+        nonlocal runs
+        runs += 1
+        args = list(extra) + ["-m", "full", "-p", "1", "-t", "5"]
+        stdin = None
+        if path is None:
+            stdin = os.path.join(d, "stdin.txt")
+            open(stdin, "w").write(text)
+        else:
+            open(path, "w").write(text)
+            args = ["-i", path] + args
+        try:
+            inp = open(stdin).read() if stdin else None
+            p = subprocess.run([exe] + args, input=inp, capture_output=True, text=True, timeout=60)
+        except subprocess.TimeoutExpired:
+            bad.append(f"{label}: timed out")
+            return
+        if p.returncode == 0:
+            bad.append(f"{label}: exit status 0" + (" and a result object was printed" if p.stdout.strip().startswith("{") else ""))
+        elif p.stdout.strip():
+            bad.append(f"{label}: exit status {p.returncode} but something was printed on stdout")
+        elif not any(a in p.stderr for a in anchors):
+            bad.append(f"{label}: exit status {p.returncode} but no documented diagnostic on stderr: {p.stderr.strip()[-120:]}")
+    for name, text in bad_json.items():
+        attempt(f"JSON {name} by extension", os.path.join(d, "g.json"), text, [])
+        attempt(f"JSON {name} --input-format json on stdin", None, text, ["--input-format", "json"])
+        attempt(f"JSON {name} auto-detected on stdin", None, text, [])
+    for name, text in bad_efg.items():
+        attempt(f"Gambit {name} by extension", os.path.join(d, "g.efg"), text, [])
+        attempt(f"Gambit {name} --input-format gambit on stdin", None, text, ["--input-format", "gambit"])
+        attempt(f"Gambit {name} auto-detected on stdin", None, text, [])
+    attempt("valid JSON read as Gambit", None, json.dumps(valid_json), ["--input-format", "gambit"])
+    attempt("valid Gambit read as JSON", None, valid_efg, ["--input-format", "json"])
+    # positive controls: the valid files are solved
+    for label, text, extra in (("valid JSON", json.dumps(valid_json), ["--input-format", "json"]), ("valid Gambit", valid_efg, ["--input-format", "gambit"]), ("valid JSON auto", json.dumps(valid_json), [])):
+        runs += 1
+        open(os.path.join(d, "stdin.txt"), "w").write(text)
+        rc, out, se = run_cli(exe, extra + ["-m", "full", "-p", "1", "-t", "5"], os.path.join(d, "stdin.txt"))
+        if rc != 0 or out is None:
+            bad.append(f"{label}: a valid file was not solved (exit {rc} {se[-100:]})")
+    return bool(bad), {"runs": runs, "violations": len(bad), "examples": bad[:6]}
